@@ -135,14 +135,31 @@ def gen_cases(tier, seed):
                     continue
                 for lo, hi in _blocks(8, 4):
                     cases.append(dict(src="dense", m=m, n=n, lo=lo, hi=hi, fam=fam, mode=mode, seed=seed))
+    for fam in ("qp", "mgda", "cagrad"):
+        for lo, hi in _blocks(len(weak_cases()), 3):
+            cases.append(dict(src="weak", m=0, n=0, lo=lo, hi=hi, fam=fam, mode="base", seed=seed))
     only = os.environ.get("VERIF_C04_ONLY")  # development aid (mutant triage): restrict to some families; never set in real runs
     if only:
         cases = [c for c in cases if c["fam"] in only.split(",")]
     return cases
 
 
+def weak_cases():
+    """One dominant direction plus objectives that are nearly neutral on it and conflict with each other in a direction that is
+    100-1000 times weaker (added after a seeded change - CAGrad's reduced problem truncated to the directions above norm_eps -
+    was missed): ill-conditioned but of unambiguous rank."""
+    out = []
+    for d in (1e-3, 3e-3, 1e-2):
+        for (a, b, c) in ((4.0, 5.5, 2.0), (0.0, 1.0, 0.0), (1.0, 1.0, -1.0)):
+            out.append(np.array([[1.0, 0.0], [a * d, b * d], [c * d, -b * d]]))
+            out.append(np.array([[1.0, 0.0, 0.0], [a * d, b * d, 0.0], [c * d, -b * d, d]]))
+    return out
+
+
 def _matrices(case):
     lo, hi = case["lo"], case["hi"]
+    if case["src"] == "weak":
+        return weak_cases()[lo:hi]
     if case["src"] == "ternary":
         return [A.ternary_index(case["m"], case["n"], i) for i in range(lo, hi)]
     if case["src"] == "canon":
@@ -303,7 +320,7 @@ def check_one(J, cfg, ref_cache, key):
         tol = TOL_CAGRAD * s2 * (1.0 + kappa)
         exc = float(np.max(-Jx))
         mg["nonconflict"] = max(0.0, exc) / tol
-        if exc > tol:
+        if not (exc <= tol):  # NaN-safe
             i = int(np.argmax(-Jx))
             viol = dict(sig="conflict:cagrad", msg=f"{desc}: (Jx)[{i}]={Jx[i]:.6g} < -{TOL_CAGRAD} (1+kappa) s^2 = {-tol:.6g} (kappa={kappa:.4g}, x={x.tolist()})")
     out = digest([which, np.round(x / s, 6).tolist() if s > 0 else 0])
